@@ -243,6 +243,57 @@ def run_async(case):
   return {'nontrivial': parked and len(prods) >= 2, 'classes': ['async-producers', f'producers-{len(prods)}'] + (['others-parked'] if parked else [])}
 
 
+def run_async_stop(case):
+  """A stop request reaches an AsyncIteratorQueue (bounded, backed by an asyncio queue) while its async producers are parked on
+  the full buffer: every producer must come back."""
+  import asyncio  # pylint: disable=g-import-not-at-top
+  import threading  # pylint: disable=g-import-not-at-top
+  import time  # pylint: disable=g-import-not-at-top
+  from ml_metrics._src.utils import iter_utils  # pylint: disable=g-import-not-at-top
+  what = f'AsyncIteratorQueue(buffer={case["buffer"]}) producers={case["producers"]} take={case["take"]} then maybe_stop()'
+  loop = asyncio.new_event_loop()
+  lt = threading.Thread(target=loop.run_forever, daemon=True)
+  lt.start()
+  q = iter_utils.AsyncIteratorQueue(case['buffer'], name='aqs')
+
+  async def agen(i, n):
+    for k in range(n):
+      yield (i, k)
+  futs = [asyncio.run_coroutine_threadsafe(q.async_enqueue_from_iterator(agen(i, n)), loop) for i, n in enumerate(case['producers'])]
+  got = []
+  for _ in range(case['take']):
+    try:
+      got.append(q.get())
+    except Exception:  # pylint: disable=broad-exception-caught
+      break
+  time.sleep(0.05)          # the remaining producers run into the full buffer
+  q.maybe_stop()
+  pending = []
+  for i, f in enumerate(futs):
+    try:
+      f.result(5)
+    except TimeoutError:
+      pending.append(i)
+    except Exception:  # pylint: disable=broad-exception-caught
+      pass
+  if pending:       # let the process go on: drain so that the parked producers can leave
+    try:
+      while True:
+        q.get_nowait()
+    except Exception:  # pylint: disable=broad-exception-caught
+      pass
+  loop.call_soon_threadsafe(loop.stop)
+  lt.join(5)
+  check(not pending, 'producer-did-not-return-after-stop', f'{what}: producers {pending} were still blocked 5 s after the stop request')
+  total = sum(case['producers'])
+  return {'nontrivial': total > case['buffer'] + case['take'], 'classes': ['async-stop', f'buffer-{case["buffer"]}']}
+
+
+def strat_async_stop(tier):
+  return st.builds(lambda b, p, t: {'buffer': b, 'producers': p, 'take': t}, st.integers(1, 3),
+                   st.lists(st.integers(0, 6), min_size=1, max_size=3), st.integers(0, 3))
+
+
 def strat_async(tier):
   @st.composite
   def s(draw):
@@ -292,6 +343,8 @@ def strat(tier):
 SCENARIOS = [
     Scenario('queue_faults', run_case, strategy=strat, setup=setup, budget={'quick': 6000, 'thorough': 120000},
              shards={'quick': 12, 'thorough': 16}),
+    Scenario('async_queue_stop', run_async_stop, strategy=strat_async_stop, budget={'quick': 60, 'thorough': 600},
+             shards={'quick': 6, 'thorough': 16}, nondeterministic=True),
     Scenario('async_queue_faults', run_async, strategy=strat_async, budget={'quick': 160, 'thorough': 2500},
              shards={'quick': 4, 'thorough': 16}, nondeterministic=True),
 ]
